@@ -96,7 +96,9 @@ struct SemModel
     std::vector<NlaSystem> nla;
     int ncomp = 1;
     std::vector<int> compParent;         // encapsulation (-1 = top level)
+    std::vector<std::string> compName;   // optional component names (default comp<i>)
     int voi = -1;
+    bool nlaGuess = true;
     std::vector<int> order;              // evaluation order of non-NLA quantities (topological)
 };
 struct SemOptions
@@ -112,6 +114,8 @@ struct SemOptions
     bool encapsulation = true;
     int exprDepth = 2;
     bool initByConstant = true;
+    bool nlaGuess = true;                // unknowns of implicit systems carry an initial_value (the solver's initial guess)
+    bool nlaDense = false;               // every equation of an implicit system reads every unknown
     bool odeSelfRate = false;            // force one ODE of the form dx/dt = x (a bare reference to its own state)
 };
 SemModel generateSemModel(Rng &rng, const SemOptions &opt);
